@@ -11,7 +11,9 @@
 // the raw socket and waits (bounded) until A's reader has seen EOF and left its loop.
 //
 // Ops (one output line each):
-//   open <key hex32>                       A listens, B connects (handshake, no ack), both sessions up  -> ok | fail:<why>
+//   open <key hex32>                       A listens, B connects (handshake, no ack), both sessions up; SO_RCVTIMEO (ms) of the
+//                                          accepted (A) and the connecting (B) session socket          -> ok rcvto=<a>/<b> | fail:<why>
+//   idle <ms>                              real-time pause without traffic                              -> ok
 //   send <ab|ba> <len> <seed>              SessionManager::send of gen_payload(len, seed)              -> sent | refused
 //   burst <ab|ba> <count> <seed> <maxlen>  count sends, i-th payload gen_payload(burst_len(seed,i,maxlen), seed*1000003+i)
 //                                                                                                      -> sent=<k>
@@ -24,7 +26,7 @@
 //                                          sndbuf > 0: SO_SNDBUF of the sending session's socket is set first   -> sent=<ok t0>/<ok t1>/…
 //   cdrain <ab|ba> <ms>                    marker + wait (at most <ms>); arrivals since the last drain by sender thread
 //                                                                                -> [timeout |marker-refused ]n=<k> t0=<i,i,…|-> … unknown=<u>
-//   rawopen                                R connects to A, sends its id and a TransportHandshake      -> ok | fail:<why>
+//   rawopen                                R connects to A, sends its id and a TransportHandshake      -> ok rcvto=<ms> | fail:<why>
 //   rawframe <nonce hex12> <declared|auto> <len> <seed> <chunk>
 //                                          R writes nonce ‖ be32(declared) ‖ ChaCha20(key, nonce, 0, gen_payload(len, seed))
 //                                          in pieces of <chunk> bytes (0 = one write)                  -> ok
@@ -200,6 +202,21 @@ bool read_exact(int fd, std::uint8_t* p, std::size_t n, int timeout_ms) {
     return true;
 }
 
+// SO_RCVTIMEO (ms) of the socket of `m`'s session with `peer`; -1 if there is no such session
+long recv_timeout_ms(network::SessionManager& m, const PeerId& peer) {
+    std::shared_ptr<network::SessionManager::Session> sess;
+    {
+        std::scoped_lock lock(m.sessions_mutex_);
+        const auto it = m.sessions_.find(peer_id_to_string(peer));
+        if (it != m.sessions_.end()) sess = it->second;
+    }
+    if (!sess) return -1;
+    timeval tv{};
+    socklen_t len = sizeof(tv);
+    if (::getsockopt(static_cast<int>(sess->socket), SOL_SOCKET, SO_RCVTIMEO, &tv, &len) != 0) return -1;
+    return static_cast<long>(tv.tv_sec) * 1000 + static_cast<long>(tv.tv_usec) / 1000;
+}
+
 std::string do_open(const std::string& key_hex) {
     W = std::make_unique<World>();
     const auto kb = verif::from_hex(key_hex);
@@ -231,7 +248,8 @@ std::string do_open(const std::string& key_hex) {
     if (!wait_until([&] { return W->A->is_connected(W->idB) && W->B->is_connected(W->idA); }, 5000)) return "fail:session";
     W->track(*W->A);
     W->track(*W->B);
-    return "ok";
+    // an established session must not carry the handshake's receive timeout: A accepted, B connected
+    return "ok rcvto=" + std::to_string(recv_timeout_ms(*W->A, W->idB)) + "/" + std::to_string(recv_timeout_ms(*W->B, W->idA));
 }
 
 network::SessionManager* sender_of(const std::string& dir) {
@@ -417,7 +435,7 @@ std::string do_rawopen() {
     W->raw = fd;
     if (!wait_until([&] { return W->A->is_connected(W->idR); }, 5000)) return "fail:session";
     W->track(*W->A);
-    return "ok";
+    return "ok rcvto=" + std::to_string(recv_timeout_ms(*W->A, W->idR));
 }
 
 std::string do_rawended(int ms) {
@@ -514,6 +532,10 @@ int main(int argc, char** argv) {
         }
         if (op == "drain" && t.size() == 2) return do_drain(t[1]);
         if (op == "rekey" && t.size() == 2) return do_rekey(t[1]);
+        if (op == "idle" && t.size() == 2) {  // nobody sends anything for this long (real time)
+            std::this_thread::sleep_for(std::chrono::milliseconds(std::stoi(t[1])));
+            return "ok";
+        }
         if (op == "csend" && t.size() == 7)
             return do_csend(t[1], std::stoull(t[2]), std::stoull(t[3]), std::stoull(t[4]), std::stoull(t[5]), std::stoi(t[6]));
         if (op == "cdrain" && t.size() == 3) return do_cdrain(t[1], std::stoi(t[2]));
